@@ -103,6 +103,7 @@ func genDispatch(c *ctx) string {
 	b.WriteString("def dirArgWrapperAccepted : Bool := " + dirArgTypeTest(c) + "\n")
 	b.WriteString("def descRaw : Bool := " + descForm(c) + "\n")
 	b.WriteString("def assureOnce : Bool := " + assureSchemaForm(c) + "\n")
+	b.WriteString("def dupKeyOverwrites : Bool := " + dupKeyForm(c) + "\n")
 	ufc, inb := bindingForms(c)
 	b.WriteString("def unionFirstCome : Bool := " + ufc + "\n")
 	b.WriteString("def ifaceNeedsBound : Bool := " + inb + "\n")
@@ -727,4 +728,33 @@ func bindingForms(c *ctx) (unionFirstCome, ifaceNeedsBound string) {
 		return false
 	})
 	return
+}
+
+// dupKeyForm reads the tail of (*Root).resolveField, where the value of a field is placed in the result map: is a
+// response key that is already there replaced (D12: `{ o { a } o { b } }` answers `{o: {b}}`) or merged with
+// the earlier value through mergeValue (body pinned)?  Whole-text match of the tail.
+func dupKeyForm(c *ctx) string {
+	fd := c.funcs["Root.resolveField"]
+	if fd == nil {
+		return unknown("resolveField", "resolve.go")
+	}
+	norm := func(n ast.Node) string {
+		t := regexp.MustCompile(`(?m)//.*$`).ReplaceAllString(c.src(n), "")
+		return regexp.MustCompile(`\s+`).ReplaceAllString(t, " ")
+	}
+	src := norm(fd.Body)
+	const over = `if IsNil(attr) { result[field.key()] = nil } else { var ft Type if fd != nil { ft = fd.Type } var fv interface{} fv, ea2 = root.resolve(attr, vars, field, ft, depth) ea = append(ea, ea2...) result[field.key()] = fv } if depth < MaxResolveDepth { Errors(ea).in(field.key()) } return }`
+	const merge = `if IsNil(attr) { if _, has := result[field.key()]; !has { result[field.key()] = nil } } else { var ft Type if fd != nil { ft = fd.Type } var fv interface{} fv, ea2 = root.resolve(attr, vars, field, ft, depth) ea = append(ea, ea2...) if prev, has := result[field.key()]; has { fv = mergeValue(prev, fv) } result[field.key()] = fv } if depth < MaxResolveDepth { Errors(ea).in(field.key()) } return }`
+	switch {
+	case strings.HasSuffix(src, over) && c.funcs["mergeValue"] == nil:
+		return "true"
+	case strings.HasSuffix(src, merge):
+		mv := c.funcs["mergeValue"]
+		const want = `{ switch tp := prev.(type) { case map[string]interface{}: if ta, ok := add.(map[string]interface{}); ok { merged := make(map[string]interface{}, len(tp)+len(ta)) for k, v := range tp { merged[k] = v } for k, v := range ta { if pv, has := merged[k]; has { v = mergeValue(pv, v) } merged[k] = v } return merged } case []interface{}: if ta, ok := add.([]interface{}); ok && len(ta) == len(tp) { merged := make([]interface{}, len(tp)) for i, v := range ta { merged[i] = mergeValue(tp[i], v) } return merged } } return add }`
+		if mv != nil && norm(mv.Body) == want {
+			return "false"
+		}
+		return unknown("mergeValue body", c.pos(fd))
+	}
+	return unknown("resolveField tail", c.pos(fd))
 }
